@@ -480,8 +480,9 @@ enum RK {
     Nl,
     Placemarker,
     /// end of the replacement list of one invocation (only pushed when a `reinvoke_*` deviation is switched on);
-    /// the token's hide set is the one of the invocation, the payload the invoked macro if it is function-like
-    RegionEnd(Option<String>),
+    /// the token's hide set is the one of the invocation, the payload the invoked macro if it is function-like and the
+    /// length of the output when the invocation was met (where the expansion starts in the output)
+    RegionEnd(Option<String>, usize),
 }
 
 type HS = Rc<BTreeSet<String>>;
@@ -598,7 +599,7 @@ fn rk_spelling(k: &RK) -> String {
         RK::Comma => ",".into(),
         RK::Paste | RK::HashHashText => "##".into(),
         RK::Nl => "\n".into(),
-        RK::Placemarker | RK::RegionEnd(_) => "".into(),
+        RK::Placemarker | RK::RegionEnd(..) => "".into(),
     }
 }
 
@@ -711,12 +712,12 @@ impl<'a> Reference<'a> {
             self.tick()?;
             let name = match &t.k {
                 RK::Id(n) => n.clone(),
-                RK::RegionEnd(last_fn) => {
+                RK::RegionEnd(last_fn, start) => {
                     // RSSL mimicry: the replacement list of an invocation has been expanded completely.  If tokens
                     // remain in the enclosing list (the next entry is not another end marker), RSSL looks at the
                     // expansion once more for a function-like name whose `(` follows the expansion.
                     let follows = matches!(ts.last(), Some(RTok { k: RK::LParen, .. }));
-                    if follows {
+                    if follows && out.len() > *start {
                         let again = match out.last() {
                             Some(RTok { k: RK::Id(g), hs }) => {
                                 let fnlike = matches!(self.macros.get(g), Some(m) if m.params.is_some());
@@ -744,7 +745,7 @@ impl<'a> Reference<'a> {
                 if let Some(m) = self.macros.get(&name) {
                     if m.params.is_some() {
                         let mut j = ts.len();
-                        while j > 0 && matches!(ts[j - 1].k, RK::Nl | RK::RegionEnd(_)) {
+                        while j > 0 && matches!(ts[j - 1].k, RK::Nl | RK::RegionEnd(..)) {
                             j -= 1;
                         }
                         if j > 0 && ts[j - 1].k == RK::LParen {
@@ -768,7 +769,7 @@ impl<'a> Reference<'a> {
                     hs.insert(name.clone());
                     let body = self.subst(&m, &[], Rc::new(hs))?;
                     if markers {
-                        ts.push(RTok { k: RK::RegionEnd(None), hs: t.hs.clone() });
+                        ts.push(RTok { k: RK::RegionEnd(None, out.len()), hs: t.hs.clone() });
                     }
                     for b in body.into_iter().rev() {
                         ts.push(b);
@@ -778,7 +779,7 @@ impl<'a> Reference<'a> {
                     // look for `(`, skipping line ends (C) -- or not (RSSL deviation)
                     let mut j = ts.len();
                     let mut saw_nl = false;
-                    while j > 0 && matches!(ts[j - 1].k, RK::Nl | RK::RegionEnd(_)) {
+                    while j > 0 && matches!(ts[j - 1].k, RK::Nl | RK::RegionEnd(..)) {
                         if ts[j - 1].k == RK::Nl {
                             saw_nl = true;
                         }
@@ -803,7 +804,7 @@ impl<'a> Reference<'a> {
                             None => return Err(RefErr::Unterminated),
                         };
                         match a.k {
-                            RK::RegionEnd(_) => {}
+                            RK::RegionEnd(..) => {}
                             RK::LParen => {
                                 depth += 1;
                                 args.last_mut().unwrap().push(a);
@@ -834,7 +835,7 @@ impl<'a> Reference<'a> {
                     hs.insert(name.clone());
                     let body = self.subst(&m, &args, Rc::new(hs))?;
                     if markers {
-                        ts.push(RTok { k: RK::RegionEnd(Some(name.clone())), hs: Rc::new(outer) });
+                        ts.push(RTok { k: RK::RegionEnd(Some(name.clone()), out.len()), hs: Rc::new(outer) });
                     }
                     for b in body.into_iter().rev() {
                         ts.push(b);
@@ -1697,7 +1698,9 @@ fn judge_with(p: &Program, real: Option<Real>, out: &mut Out, hist: &mut Hist) {
             let mut best: Option<u32> = None;
             'search: for k in 1..=3u32 {
                 for bits in 1u32..(1 << DEV_NAMES.len()) {
-                    if bits.count_ones() != k {
+                    // `paste-in-api-define` (4) and `duplicate-api-define` (32) were fixed in 9f7cdb8: not offered as
+                    // explanations any more (a regression shows up as `unexplained`)
+                    if bits.count_ones() != k || bits & (4 | 32) != 0 {
                         continue;
                     }
                     let mut n2 = RefNotes::default();
@@ -1736,12 +1739,6 @@ fn judge_with(p: &Program, real: Option<Real>, out: &mut Out, hist: &mut Hist) {
                 // C needed a placemarker here; RSSL has none and pastes (or expands) whatever is adjacent, in
                 // the order of its rescan, which the switch above reproduces only for the simple shapes
                 class = DEV_NAMES[1].to_string();
-            } else {
-                let mut seen = BTreeSet::new();
-                if p.api.iter().any(|(n, _)| !seen.insert(enc_toks(n))) {
-                    // two entries of one name stay in the macro list side by side: whichever is not disabled is used
-                    class = DEV_NAMES[5].to_string();
-                }
             }
             let mut na = false;
             if class == "unexplained" {
